@@ -17,8 +17,16 @@ import (
 )
 
 type registry struct {
-	listeners map[string]*listener
+	listeners  map[string]*listener
+	closeDelay func(l *simnet.Link, side int) time.Duration
 }
+
+// SetCloseDelay makes PeerConn.Close linger: the real transports end a
+// connection with a close handshake (WebSocket: close frame out, wait up to
+// seconds for the peer's; QUIC: CONNECTION_CLOSE and draining). Both ends see
+// the end of the connection at once; the caller of Close returns f(link, side)
+// later. nil (the default): Close returns at once.
+func SetCloseDelay(f func(l *simnet.Link, side int) time.Duration) { reg().closeDelay = f }
 
 func reg() *registry {
 	w := simnet.W()
@@ -260,6 +268,11 @@ func (c *peerConn) Close() error {
 	c.link.H[1-c.side].CloseRead()
 	c.q.WakeAll()
 	c.other.q.WakeAll()
+	if f := reg().closeDelay; f != nil {
+		if d := f(c.link, c.side); d > 0 {
+			simrt.Sleep(d)
+		}
+	}
 	return nil
 }
 
